@@ -733,3 +733,37 @@ Theorem C12_scc_order_irrelevant_exact :
     forall X xi, In X (nonterminals G) -> In xi (all_assts (lshape G X)) -> final' X xi = final X xi.
 Proof. exact (@scc_order_irrelevant_exact). Qed.
 Print Assumptions C12_scc_order_irrelevant_exact.
+(** * twin rules: same lhs and EQUAL edges, different external nodes / isolated nodes *)
+(** (node and edge ids are only unique inside one right-hand side, so such rules have equal Edge
+    objects in the library; harness stream "twin rules", harness/props/_c12_util.py) *)
+Require Import Fggs.Proofs.Presentation_twin.
+
+(** the equations sum over the rule LIST: an appended rule contributes its own [rule_val]
+    (own nodes, own externals), whatever rules with the same edges are already present *)
+Theorem C12_rule_appended :
+  forall R (o : sr_ops R), sr_ring o ->
+  forall G G' r w x xi,
+    g_doms G' = g_doms G -> g_labels G' = g_labels G -> g_rules G' = g_rules G ++ [r] ->
+    is_term G (r_lhs r) = false ->
+    step o G' w x (r_lhs r) xi
+    = add o (step o G w x (r_lhs r) xi)
+            (rule_val o G' (fun l => if is_term G' l then w l else x l) r xi).
+Proof. exact (@step_rule_appended). Qed.
+Print Assumptions C12_rule_appended.
+
+(** a rule is NOT determined by (lhs, edges): giving a rule the value of its twin changes the result
+    (other external node, Boolean semiring; one more isolated node, counting semiring) *)
+Theorem C12_twin_rules_not_interchangeable_ext :
+  exists r r' w k xi,
+    twin_rules r r' /\ wf_grammar (tw_G [r; r']) = true /\
+    Zk bool_ops (tw_G [r; r']) w k 1 xi <> Zk bool_ops (tw_G [r; r]) w k 1 xi.
+Proof. exact twin_rules_not_interchangeable_ext. Qed.
+Print Assumptions C12_twin_rules_not_interchangeable_ext.
+
+Theorem C12_twin_rules_not_interchangeable_isolated :
+  exists r r' w k xi,
+    twin_rules r r' /\ wf_grammar (tw_G [r; r']) = true /\
+    Zk nat_ops (tw_G [r; r']) w k 1 xi = 3 /\ Zk nat_ops (tw_G [r; r]) w k 1 xi = 2.
+Proof. exact twin_rules_not_interchangeable_isolated. Qed.
+Print Assumptions C12_twin_rules_not_interchangeable_isolated.
+
